@@ -286,6 +286,41 @@ def r_getters(ctx: Ctx, model):
                                    nontrivial_key=("getter", g, case),
                                    sample={"rule": "G-getter", "getter": g, "case": case, "derived": got} if n % 9 == 0 else None)
     ctx.floor("getter cases interpreted", n, 100)
+    # history: the backend state is shared between getters; after any other read (another temperature, the other phase, a
+    # pressure-based flash) a getter must still answer for the temperature it was asked about
+    ctx.rule("G-getter (history): after enthalpy_vaporisation(press=...), or another getter at another temperature, every "
+             "temperature getter still reads the backend at (its own quality, the requested temperature)")
+    I = make_interp(model, backend_ok=True)
+    nh = 0
+    for g in GETTERS:
+        if g in NO_TEMP:
+            continue
+        for prefix in ("press-flash", "other-temperature", "same-temperature-other-phase", "itself+press-flash", "itself+other-temperature"):
+            def thunk(I, g=g, prefix=prefix):
+                ads = Obj(cls=ci, label="adsorbate", attrs={"name": "ADS", "alias": ["ads"], "properties": {"backend_name": "BK"},
+                                                            "_state": None, "_backend_mode": None})
+                other = "gas_density" if g != "gas_density" else "liquid_density"
+                steps = prefix.split("+")
+                for st in steps:
+                    if st == "itself":
+                        I.call_value(I.getattr_(ads, g, None), [Num.const(300)], {}, None)
+                    elif st == "press-flash":
+                        I.call_value(I.getattr_(ads, "enthalpy_vaporisation", None), [], {"press": Num.atom("PR")}, None)
+                    elif st == "other-temperature":
+                        I.call_value(I.getattr_(ads, other, None), [Num.const(280)], {}, None)
+                    else:
+                        I.call_value(I.getattr_(ads, "gas_density" if GETTERS[g][1] != "1" else "liquid_density", None), [Num.const(300)], {}, None)
+                return I.call_value(I.getattr_(ads, g, None), [Num.const(300)], {}, None)
+            for oc in I.explore(thunk):
+                nh += 1
+                want = expected_backend(g, "300")
+                ok = oc.kind == "ok" and oc.value in want
+                got = I.describe(oc.value) if oc.kind == "ok" else f"raises {oc.exc.name}"
+                ctx.ob(ok, Finding("C20.G-getter", ci.find_method(g).where, f"Adsorbate.{g}|after:{prefix}",
+                                   f"Adsorbate.{g}(T) called after {prefix}: {got}; required {' or '.join(sorted(x.canon() for x in want))} - the "
+                                   "answer depends on what was asked before"),
+                       nontrivial_key=("getter-history", g, prefix))
+    ctx.floor("getter history cases", nh, 20)
 
 
 def r_lookup(ctx: Ctx, model):
